@@ -1394,3 +1394,128 @@ func c02r12(rc *core.RC) {
 		rc.Unknown("decoder.invalidDecoder/methods", token.NoPos, "found %d of Decode/DecodeStream", n)
 	}
 }
+
+// ---- C02.R13 what null does to a TextUnmarshaler destination is decided by the destination's own kind ----
+
+// encoding/json sets a destination of pointer, map, slice or interface kind to its zero value for null and leaves
+// every other destination as it is, also when the destination's type implements TextUnmarshaler. The text decoder is
+// built for the pointer type that implements the interface (every constructor call passes runtime.PtrTo(T)), so the
+// kind to look at is that of typ.Elem(). The kind of typ itself is always Ptr: a switch on it clears every
+// destination (`{"Level":null}` turned a struct-kind level {n:3} into {n:0}). Obligations: every call of
+// newUnmarshalTextDecoder passes runtime.PtrTo(…); the switch over the four clearing kinds in the decoder's methods
+// switches on <typ>.Elem().Kind(), directly, through a local, or through a field the constructor fills with it.
+func c02r13(rc *core.RC) {
+	p := rc.P
+	pk := p.Pkg("decoder")
+	if pk == nil {
+		rc.Unknown("decoder", token.NoPos, "package not found")
+		return
+	}
+	info := pk.TypesInfo
+	ctor := p.FuncObj("decoder", "newUnmarshalTextDecoder")
+	ctorDecl := p.Func("decoder", "newUnmarshalTextDecoder")
+	if ctor == nil || ctorDecl == nil {
+		rc.Unknown("decoder.newUnmarshalTextDecoder", token.NoPos, "constructor not found")
+		return
+	}
+	nCalls := 0
+	for _, fd := range p.Funcs("decoder") {
+		if fd.Body == nil {
+			continue
+		}
+		name := p.FuncName(fd)
+		k := 0
+		ast.Inspect(fd.Body, func(m ast.Node) bool {
+			c, ok := m.(*ast.CallExpr)
+			if !ok || core.Callee(info, c) != ctor || len(c.Args) == 0 {
+				return true
+			}
+			k++
+			nCalls++
+			rc.Touch(name)
+			arg, isCall := core.Unparen(c.Args[0]).(*ast.CallExpr)
+			rc.Check(isCall && core.CalleeName(info, arg) == "runtime.PtrTo", fmt.Sprintf("%s/text-decoder#%d built-for-the-pointer-type", name, k), c.Pos(), "newUnmarshalTextDecoder is handed %s: the decoder is written for the pointer type that implements TextUnmarshaler (runtime.PtrTo(T)), its destination being typ.Elem()", core.Src(p.Fset, c.Args[0]))
+			return true
+		})
+	}
+	// what the constructor stores in each field
+	fieldInit := map[string]ast.Expr{}
+	ast.Inspect(ctorDecl.Body, func(m ast.Node) bool {
+		if kv, ok := m.(*ast.KeyValueExpr); ok {
+			if id, ok := kv.Key.(*ast.Ident); ok {
+				fieldInit[id.Name] = kv.Value
+			}
+		}
+		return true
+	})
+	isElemKind := func(fd *ast.FuncDecl, e ast.Expr) bool {
+		for i := 0; i < 4; i++ {
+			e = core.Unparen(core.ResolveSingleDef(info, fd.Body, e))
+			// a field of the receiver: what the constructor put there
+			if sel, ok := e.(*ast.SelectorExpr); ok {
+				if f := core.FieldOf(info, sel); f != nil {
+					if init, has := fieldInit[f.Name()]; has && !strings.HasSuffix(f.Type().String(), "runtime.Type") {
+						e = init
+						fd = ctorDecl
+						continue
+					}
+				}
+			}
+			break
+		}
+		// X.Kind() with X = <something>.Elem()
+		c, ok := e.(*ast.CallExpr)
+		if !ok {
+			return false
+		}
+		sel, ok := c.Fun.(*ast.SelectorExpr)
+		if !ok || sel.Sel.Name != "Kind" {
+			return false
+		}
+		x := core.Unparen(core.ResolveSingleDef(info, fd.Body, sel.X))
+		xc, ok := x.(*ast.CallExpr)
+		if !ok {
+			return false
+		}
+		xs, ok := xc.Fun.(*ast.SelectorExpr)
+		return ok && xs.Sel.Name == "Elem"
+	}
+	nSw := 0
+	for _, fd := range p.Funcs("decoder") {
+		if fd.Body == nil || fd.Recv == nil {
+			continue
+		}
+		fn, _ := info.Defs[fd.Name].(*types.Func)
+		if fn == nil || !strings.HasSuffix(fn.Type().(*types.Signature).Recv().Type().String(), "decoder.unmarshalTextDecoder") {
+			continue
+		}
+		name := p.FuncName(fd)
+		ast.Inspect(fd.Body, func(m ast.Node) bool {
+			sw, ok := m.(*ast.SwitchStmt)
+			if !ok || sw.Tag == nil {
+				return true
+			}
+			kinds := map[string]bool{}
+			ast.Inspect(sw.Body, func(k ast.Node) bool {
+				if cc, ok := k.(*ast.CaseClause); ok {
+					for _, e := range cc.List {
+						if s, ok := core.Unparen(e).(*ast.SelectorExpr); ok {
+							kinds[s.Sel.Name] = true
+						}
+					}
+				}
+				return true
+			})
+			if !(kinds["Ptr"] && kinds["Map"] && kinds["Slice"] && kinds["Interface"]) {
+				return true
+			}
+			nSw++
+			rc.Touch(name)
+			rc.Check(isElemKind(fd, sw.Tag), name+"/null-clears-by-the-destination's-kind", sw.Pos(), "the switch over the kinds that null clears looks at %s: it has to be the kind of the destination, typ.Elem().Kind() (the kind of the decoder's own type is always Ptr, and null would clear every destination whose type implements TextUnmarshaler)", core.Src(p.Fset, sw.Tag))
+			return true
+		})
+	}
+	if nCalls < 3 || nSw < 1 {
+		rc.Unknown("decoder.unmarshalTextDecoder/anchors", token.NoPos, "found %d constructor calls and %d switches over the clearing kinds (confirmed: 4 and 1)", nCalls, nSw)
+	}
+}
